@@ -1,6 +1,7 @@
 import CorsVerif.Proofs.Pattern
 import CorsVerif.Proofs.ACRH
 import CorsVerif.Proofs.Accepted
+import CorsVerif.Spec.Fetch
 /-
   C17 — No input can crash configuration or request handling.  (PARTIAL)
 
@@ -19,6 +20,11 @@ import CorsVerif.Proofs.Accepted
     P5  `fastParseHost`'s `str[1:end]`: the closing bracket comes after the opening one;
     P6  the `uint8` status arithmetic: the stored offset of an accepted configuration is below 100;
     P7  `parsePort`'s `_ = str[i:end]` hoist: `1 ≤ min(len, maxPortLen)` for a non-empty string.
+
+  `C17_sites` pins the complete list of index and slice expressions of the non-test code
+  (regenerated from the source on every run) to the audited list below, each entry with the guard
+  or the precondition theorem that keeps it in range; a new or changed index expression breaks the
+  obligation.
 
   What the theorems cannot carry: panics inside library calls and the Go runtime.  The tie runs
   every call of every suite under `recover`; a panic is a disagreement (the model never panics)
@@ -198,6 +204,132 @@ theorem C17_parsePort_hoist (str : Bytes) (h : str ≠ []) : 1 ≤ min str.lengt
   | nil => exact absurd rfl h
   | cons a t => simp [Facts.origins_maxPortLen]; omega
 
+/-! ### Every index and slice expression of the code, audited -/
+
+/-- The index and slice sites of the non-test code (regenerated on every run), each with the guard or
+the proved precondition that keeps it in range:
+
+  * `cors.newConfig|icfg.acma[0]` — guarded by `len(icfg.acma) > 0`
+  * `headers.First|v[0]` — guarded by `len(v) == 0` return
+  * `headers.First|v[:1]` — guarded by `len(v) == 0` return
+  * `headers.cutAtComma|str[:end]` — end = min(len(str), n)
+  * `headers.cutAtComma|str[:i]` — i is an index inside str[:end] (P4, C17_cutAtComma_in_range)
+  * `headers.cutAtComma|str[i+1:]` — i < end <= len(str) (P4)
+  * `headers.trimLeftOWS|s[0]` — loop condition `len(s) > 0`
+  * `headers.trimLeftOWS|s[1:]` — loop condition `len(s) > 0`
+  * `headers.trimRightOWS|s[:len(s)-1]` — loop condition `len(s) > 0`
+  * `headers.trimRightOWS|s[len(s)-1]` — loop condition `len(s) > 0`
+  * `origins.Contains|n.children[i]` — i found by BinarySearch in n.edges; len(edges) == len(children) (node invariant, kept by upsertEdge)
+  * `origins.Insert|n.children[i]` — same
+  * `origins.Insert|s[0]` — P1 (C17_insert_key_nonempty): the key is non-empty after stripping `*`
+  * `origins.Insert|s[1:]` — P1
+  * `origins.add|n.ports[i]` — i found by BinarySearch in n.schemes; len(schemes) == len(ports) (node invariant, kept by add)
+  * `origins.contains|n.ports[i]` — same
+  * `origins.deleteSameSign|s[:i]` — i from BinarySearch(s, 0): 0 <= i <= len(s)
+  * `origins.deleteSameSign|s[i:]` — same
+  * `origins.elems|n.children[i]` — range over n.children
+  * `origins.elems|n.schemes[i]` — range over n.ports; len(schemes) == len(ports)
+  * `origins.fastParseHost|str[0]` — guarded by `len(str) >= minIPv6HostLen &&` resp. `len(str) == 0 ||` (short-circuit order!)
+  * `origins.fastParseHost|str[1:end]` — P5 (C17_bracket_end): str[0] == '[' so IndexByte(']') >= 1
+  * `origins.fastParseHost|str[:i]` — loop bound i <= len(str)
+  * `origins.fastParseHost|str[end+1:]` — end < len(str)
+  * `origins.fastParseHost|str[i:]` — loop bound
+  * `origins.fastParseHost|str[i]` — loop condition i < len(str)
+  * `origins.hostOnly|hp.Value[len(subdomainWildcard)+1:]` — P1 (C17_value_nonempty): a subdomains value is `*.` + non-empty base
+  * `origins.insert|s[i+1:]` — after append: i <= old len < new len
+  * `origins.insert|s[i:]` — same
+  * `origins.insert|s[i]` — same
+  * `origins.lastByte|str[len(str)-1]` — guarded by `len(str) == 0` return
+  * `origins.parseHostPattern|pattern.Value[:end]` — P2: the parsed host is a prefix of what was lexed
+  * `origins.parsePort|str[0]` — guarded by `len(str) == 0 ||`
+  * `origins.parsePort|str[i:]` — i <= end <= len(str)
+  * `origins.parsePort|str[i:end]` — P7 (C17_parsePort_hoist)
+  * `origins.parsePort|str[i]` — i < end <= len(str)
+  * `origins.parseScheme|str[0]` — guarded by `len(str) == 0 ||`
+  * `origins.parseScheme|str[:i]` — i <= end <= len(str)
+  * `origins.parseScheme|str[i:]` — same
+  * `origins.parseScheme|str[i]` — i < end
+  * `origins.splitAtCommonSuffix|a[:len(a)-len(s)+i]` — 0 <= i <= len(s) <= len(a)
+  * `origins.splitAtCommonSuffix|b[:len(b)-len(s)+i]` — same with b
+  * `origins.splitAtCommonSuffix|l[:len(s)]` — l was cut to len(s) bytes
+  * `origins.splitAtCommonSuffix|l[i]` — 0 <= i < len(s) = len(l)
+  * `origins.splitAtCommonSuffix|l[len(l)-len(s):]` — len(s) <= len(l) after the swap
+  * `origins.splitAtCommonSuffix|s[i:]` — 0 <= i <= len(s)
+  * `origins.splitAtCommonSuffix|s[i]` — loop condition 0 <= i
+  * `origins.upsertEdge|n.children[i]` — i from BinarySearch in n.edges (after insert: i < len)
+  * `util.Contains|as[c/32]` — c is a byte: c/32 <= 7, the array has 8 words
+  * `util.IndexAfter|set.elems[start:]` — P3 (C17_indexAfter_lt): every returned position is below Size, so start <= Size
+  * `util.MakeASCIISet|as[c/32]` — as above
+  * `util.MakeASCIISet|chars[i]` — range over len(chars)
+-/
+def auditedSites : List Bytes := [
+  Spec.b "cors.newConfig|icfg.acma[0]",
+  Spec.b "headers.First|v[0]",
+  Spec.b "headers.First|v[:1]",
+  Spec.b "headers.cutAtComma|str[:end]",
+  Spec.b "headers.cutAtComma|str[:i]",
+  Spec.b "headers.cutAtComma|str[i+1:]",
+  Spec.b "headers.trimLeftOWS|s[0]",
+  Spec.b "headers.trimLeftOWS|s[1:]",
+  Spec.b "headers.trimRightOWS|s[:len(s)-1]",
+  Spec.b "headers.trimRightOWS|s[len(s)-1]",
+  Spec.b "origins.Contains|n.children[i]",
+  Spec.b "origins.Insert|n.children[i]",
+  Spec.b "origins.Insert|s[0]",
+  Spec.b "origins.Insert|s[1:]",
+  Spec.b "origins.add|n.ports[i]",
+  Spec.b "origins.add|n.ports[i]",
+  Spec.b "origins.contains|n.ports[i]",
+  Spec.b "origins.deleteSameSign|s[:i]",
+  Spec.b "origins.deleteSameSign|s[i:]",
+  Spec.b "origins.elems|n.children[i]",
+  Spec.b "origins.elems|n.schemes[i]",
+  Spec.b "origins.fastParseHost|str[0]",
+  Spec.b "origins.fastParseHost|str[0]",
+  Spec.b "origins.fastParseHost|str[1:end]",
+  Spec.b "origins.fastParseHost|str[:i]",
+  Spec.b "origins.fastParseHost|str[end+1:]",
+  Spec.b "origins.fastParseHost|str[i:]",
+  Spec.b "origins.fastParseHost|str[i]",
+  Spec.b "origins.fastParseHost|str[i]",
+  Spec.b "origins.fastParseHost|str[i]",
+  Spec.b "origins.hostOnly|hp.Value[len(subdomainWildcard)+1:]",
+  Spec.b "origins.insert|s[i+1:]",
+  Spec.b "origins.insert|s[i:]",
+  Spec.b "origins.insert|s[i]",
+  Spec.b "origins.lastByte|str[len(str)-1]",
+  Spec.b "origins.parseHostPattern|pattern.Value[:end]",
+  Spec.b "origins.parsePort|str[0]",
+  Spec.b "origins.parsePort|str[0]",
+  Spec.b "origins.parsePort|str[i:]",
+  Spec.b "origins.parsePort|str[i:end]",
+  Spec.b "origins.parsePort|str[i]",
+  Spec.b "origins.parsePort|str[i]",
+  Spec.b "origins.parseScheme|str[0]",
+  Spec.b "origins.parseScheme|str[:i]",
+  Spec.b "origins.parseScheme|str[i:]",
+  Spec.b "origins.parseScheme|str[i]",
+  Spec.b "origins.splitAtCommonSuffix|a[:len(a)-len(s)+i]",
+  Spec.b "origins.splitAtCommonSuffix|b[:len(b)-len(s)+i]",
+  Spec.b "origins.splitAtCommonSuffix|l[:len(s)]",
+  Spec.b "origins.splitAtCommonSuffix|l[i]",
+  Spec.b "origins.splitAtCommonSuffix|l[len(l)-len(s):]",
+  Spec.b "origins.splitAtCommonSuffix|s[i:]",
+  Spec.b "origins.splitAtCommonSuffix|s[i]",
+  Spec.b "origins.upsertEdge|n.children[i]",
+  Spec.b "origins.upsertEdge|n.children[i]",
+  Spec.b "origins.upsertEdge|n.children[i]",
+  Spec.b "util.Contains|as[c/32]",
+  Spec.b "util.IndexAfter|set.elems[start:]",
+  Spec.b "util.MakeASCIISet|as[c/32]",
+  Spec.b "util.MakeASCIISet|chars[i]"
+]
+
+/-- **C17 (sites).** The code indexes and slices exactly at the audited sites: a new or changed
+index expression breaks this obligation. -/
+theorem C17_sites : Facts.cors_indexSites = auditedSites := by decide
+
+#print axioms C17_sites
 #print axioms C17_value_nonempty
 #print axioms C17_insert_key_nonempty
 #print axioms C17_indexAfter_lt
